@@ -25,6 +25,7 @@ N = 1024) -> threshold 1e-11; equiangular nodes are symmetric to 4e-16 and their
 2 / cos^2(lat) (3e-13 at 32 equiangular nodes) -> threshold 1e-10.
 """
 import os
+import re
 
 import numpy as np
 
@@ -765,13 +766,29 @@ def _probes_sw(ctx, E, worst):
 LEAN_FILES = ['Dino/Symmetry.lean', 'Dino/SymmetryDrv.lean'] + [
     f'DinoProofs/Lemmas/{n}.lean' for n in (
         'Symmetry', 'SymmetryDyn', 'SymmetryPE', 'SymmetryMoist', 'SymmetrySW', 'SymmetryImex', 'SymmetryTraj',
-        'SymmetrySH', 'SymmetryOps', 'SymmetryRot', 'SymmetryRotReal', 'SymmetryRotFast', 'SymmetryMirror')]
+        'SymmetrySH', 'SymmetryOps', 'SymmetryRot', 'SymmetryRotReal', 'SymmetryRotFast', 'SymmetryMirror',
+        'SymmetryFilter')]
+
+
+def _symmetry_imports():
+  """every DinoProofs/Lemmas/Symmetry*.lean module that Properties/C10.lean imports, transitively: whatever the
+  property module pulls in is audited for forbidden constructs (no file list to keep in step, no existence guard:
+  an imported module that is missing is a build break)."""
+  seen, todo = [], ['DinoProofs/Properties/C10.lean']
+  while todo:
+    f = todo.pop()
+    src = common.strip_lean_comments(open(os.path.join(common.LEAN, f)).read())
+    for m in re.findall(r'^import (DinoProofs\.Lemmas\.Symmetry\w*)\s*$', src, re.M):
+      g = m.replace('.', '/') + '.lean'
+      if g not in seen:
+        seen.append(g)
+        todo.append(g)
+  return seen
 
 
 def run(ctx: common.Ctx):
   E = _Env()
-  extra = LEAN_FILES + [f for f in ['DinoProofs/Lemmas/SymmetryFilter.lean']
-                        if os.path.exists(os.path.join(common.LEAN, f))]
+  extra = LEAN_FILES + [f for f in _symmetry_imports() if f not in LEAN_FILES]
   ctx.lean('DinoProofs.Properties.C10', 'C10.txt', extra_files=extra)
   ctx.assumptions += [
       'T10.1 is about the abstract models Dino.Dynamics / Dino.DynamicsSW / Dino.Imex / Dino.Invariants; their '
@@ -782,6 +799,10 @@ def run(ctx: common.Ctx):
       'cos / sin tables and the Legendre nodes / weights are external: TrigTable, SymNodes, SymWeights are hypotheses '
       'of T10.2 / T10.3, validated on every run on the arrays the real Grid computed',
       'float rounding is outside the theorems (thresholds 1e-9 / 1e-10, measured rounding <= 2e-13)',
+      'rot_latitude_derivatives_commute has two hypotheses: the derivative recurrence weights of the two rows of every '
+      '(cos, sin) pair m >= 1 are equal (validated exactly on _derivative_recurrence_weights of every grid, key '
+      'hyp:weights-equal-on-pairs) and sn 0 = 0 (a field of TrigTable, which the real sine satisfies: '
+      'trig_tables_exist), so that the unrotated (+0, -0) pair of the fast layout stays put',
       'padding: the fast-basis statements are proved with padding of the axes the symmetry does NOT act on (rotation: '
       'longitude-node padding 0; mirror: latitude-node padding 0): np.roll / a flip of a padded nodal axis is not the '
       'symmetry; the probes use unpadded nodal layouts of the transformed axis',
@@ -789,7 +810,10 @@ def run(ctx: common.Ctx):
       'moist / cloud statement and of pe_trajectory_equivariant: validated exactly (bit for bit) for roll and flip in '
       'section (b), keys hyp:hdiv, hyp:rhoN-mul, hyp:rhoN-one',
       'filters along trajectories: HistRel / lfRel ask for conjugated filters; for leaf-wise multipliers commuting with '
-      'rho_M this is proved (C10.spectral_filter_conjugated, pe_trajectory_equivariant_spectral_filters); that the real '
+      'rho_M this is proved for one-state schemes and for leapfrog runs (with Robert-Asselin filters of any strength), '
+      'primitive-equation classes and shallow water (C10.spectral_filter_conjugated, sw_spectral_filter_conjugated, '
+      'leapfrog_spectral_filters_related, pe_/sw_trajectory_equivariant_spectral_filters, '
+      'pe_/sw_leapfrog_equivariant_spectral_filters); that the real '
       'exponential / diffusion filters commute with rho_M is validated in section (b) (hyp:filter-commutes) and proved '
       'for the list model only (rot_lMul_commutes, mirror_dDlon_lMul_commute)',
       'Equivariant.lproj is a model device (projection on one total wavenumber, used by implicit_inverse) with no '
